@@ -486,14 +486,78 @@ CONSTEXPR_USES = [
 ]
 
 
+# Which entry of the table exercises which public constexpr member of the main class templates
+# (file, member) -> a fragment that must occur in the table.  The member list is read from the tree
+# with clang-query on every run: a constexpr member that has no line here fails the check as
+# analysis-broken, so the table cannot silently fall behind the API.
+PARITY_COVER = {
+    ("quantity.hh", "as"): "feet(4).as(inches)", ("quantity.hh", "in"): "feet(4).in(inches)",
+    ("quantity.hh", "coerce_as"): "coerce_as<std::int8_t>(feet)", ("quantity.hh", "coerce_in"): "inches(50).coerce_in(feet)",
+    ("quantity.hh", "operator*"): "meters(6) * seconds(2)", ("quantity.hh", "operator/"): "meters(6.0) / seconds(2.0)",
+    ("quantity.hh", "operator+="): "cx_pluseq(", ("quantity.hh", "operator-="): "cx_minuseq(", ("quantity.hh", "operator*="): "cx_muleq(", ("quantity.hh", "operator/="): "cx_diveq(",
+    ("quantity.hh", "operator+"): "+meters(7)", ("quantity.hh", "operator-"): "-meters(7)",
+    ("quantity.hh", "operator Rep"): "static_cast<int>(make_quantity<UnitProductT<>>(3))", ("quantity.hh", "operator T"): "std::chrono::duration<int>(seconds(3))",
+    ("quantity.hh", "operator NTTP"): "::NTTP>(meters(5))", ("quantity.hh", "perform_shorthand_checks"): "cx_muleq(",
+    ("quantity_point.hh", "as"): "meters_pt(5).as(", ("quantity_point.hh", "in"): "meters_pt(5).in(", ("quantity_point.hh", "coerce_as"): "meters_pt(5).coerce_as(",
+    ("quantity_point.hh", "coerce_in"): "celsius_pt(20).coerce_in<int>(kelvins_pt)", ("quantity_point.hh", "operator+="): "cx_ppluseq(", ("quantity_point.hh", "operator-="): "cx_pminuseq(",
+    ("constant.hh", "as"): ").as<int>(meters / seconds)", ("constant.hh", "in"): ").in<int>(meters / seconds)", ("constant.hh", "coerce_as"): ").coerce_as<int>(", ("constant.hh", "coerce_in"): ").coerce_in<int>(",
+    ("constant.hh", "can_store_value_in"): "can_store_value_in<int>(", ("constant.hh", "operator Quantity<U, R>"): "Quantity<Meters, int>(make_constant(",
+    ("constant.hh", "operator T"): "std::chrono::duration<int>(make_constant(",
+    ("zero.hh", "operator T"): "static_cast<int>(ZERO)", ("zero.hh", "operator std::chrono::duration<Rep, Period>"): "std::chrono::milliseconds(ZERO)",
+}
+PARITY_HELPERS = """
+constexpr auto cx_pluseq(Quantity<Meters, int> a, Quantity<Meters, int> b) { a += b; return a; }
+constexpr auto cx_minuseq(Quantity<Meters, int> a, Quantity<Meters, int> b) { a -= b; return a; }
+constexpr auto cx_muleq(Quantity<Meters, int> a, int s) { a *= s; return a; }
+constexpr auto cx_diveq(Quantity<Meters, double> a, double s) { a /= s; return a; }
+constexpr auto cx_ppluseq(QuantityPoint<Meters, int> p, Quantity<Meters, int> q) { p += q; return p; }
+constexpr auto cx_pminuseq(QuantityPoint<Meters, int> p, Quantity<Meters, int> q) { p -= q; return p; }
+"""
+CONSTEXPR_USES_MEMBERS = [
+    "cx_pluseq(meters(1), meters(2))", "cx_minuseq(meters(1), meters(2))", "cx_muleq(meters(4), 3)", "cx_diveq(meters(4.0), 8.0)",
+    "cx_ppluseq(meters_pt(1), meters(2))", "cx_pminuseq(meters_pt(1), meters(2))",
+    "static_cast<int>(make_quantity<UnitProductT<>>(3))", "std::chrono::duration<int>(seconds(3)).count()",
+    "static_cast<Quantity<Meters, int>::NTTP>(meters(5))", "from_nttp(static_cast<Quantity<Meters, int>::NTTP>(meters(5)))",
+    "meters_pt(5).in(meters_pt / mag<100>())", "meters_pt(5).coerce_as(meters_pt * mag<100>())",
+    "make_constant(meters / seconds * mag<299792458>()).in<int>(meters / seconds)", "make_constant(meters / seconds * mag<299792458>()).coerce_as<int>(meters / seconds * mag<1000>())",
+    "make_constant(meters / seconds * mag<299792458>()).coerce_in<int>(meters / seconds * mag<1000>())",
+    "decltype(make_constant(meters * mag<5>()))::can_store_value_in<int>(meters)", "Quantity<Meters, int>(make_constant(meters * mag<5>()))",
+    "std::chrono::duration<int>(make_constant(seconds * mag<5>())).count()", "static_cast<int>(ZERO)", "std::chrono::milliseconds(ZERO).count()",
+]
+
+
+def api_members(ctx):
+    """Public constexpr member functions of Quantity, QuantityPoint, Constant and Zero (primary
+    templates), read from the tree: [(file basename, member name)]."""
+    tu = '#include "au/au.hh"\n'
+    cls = 'cxxRecordDecl(hasAnyName("::au::Quantity", "::au::QuantityPoint", "::au::Constant", "::au::Zero"), unless(classTemplateSpecializationDecl()))'
+    r = srclint.clang_query(ctx, tu, [("m", "cxxMethodDecl(ofClass(%s), isPublic(), unless(isImplicit()), unless(cxxConstructorDecl()), unless(cxxDestructorDecl()), unless(isDeleted()))" % cls)], tag="api")
+    out = set()
+    for f, l in r["m"][1]:
+        line = open(f).read().splitlines()[l - 1]
+        if "constexpr" not in line:
+            continue  # (data_in hands out a reference to the stored value: not a constant-expression use)
+        m = re.search(r"operator\s*(.+?)\s*\(", line)
+        name = ("operator " + m.group(1) if re.match(r"[\w:]", m.group(1)) else "operator" + m.group(1)) if m else re.search(r"(\w+)\s*\(", line).group(1)
+        out.add((os.path.basename(f), name))
+    return sorted(out)
+
+
 def constexpr_parity(ctx):
     """Every use of the API inside a constant expression is accepted (or refused) ALIKE by both
     compilers under C++14, C++17 and C++20.  (What a lambda, an `if`, a non-literal temporary may do
     inside a constant expression changed between the standards; the library promises C++14.)"""
     prelude = (witness.DEFAULT_PRELUDE + "#include <chrono>\n#include <cstdint>\n#include \"au/math.hh\"\n#include \"au/units/feet.hh\"\n#include \"au/units/inches.hh\"\n#include \"au/units/yards.hh\"\n"
                "#include \"au/units/meters.hh\"\n#include \"au/units/seconds.hh\"\n#include \"au/units/hertz.hh\"\n#include \"au/units/celsius.hh\"\n#include \"au/units/kelvins.hh\"\nusing namespace au;\n")
+    uses = CONSTEXPR_USES + CONSTEXPR_USES_MEMBERS
+    members = api_members(ctx)
+    ctx.require(len(members) >= 25, "only %d public constexpr members found in the main class templates" % len(members))
+    table = "\n".join(uses)
+    uncovered = [m for m in members if m not in PARITY_COVER or PARITY_COVER[m] not in table]
+    ctx.require(not uncovered, "constexpr parity: public constexpr members without an entry in the table: %s" % uncovered)
+    prelude += PARITY_HELPERS
     items = [witness.Item("cx:%d:%s" % (i, e), "constexpr auto cxv_%d = (%s); static_assert(sizeof(cxv_%d) > 0, \"\");" % (i, e, i), "accept", None,
-                          dict(desc="`constexpr auto v = %s;`" % e)) for i, e in enumerate(CONSTEXPR_USES)]
+                          dict(desc="`constexpr auto v = %s;`" % e)) for i, e in enumerate(uses)]
     results, stats = witness.judge(ctx, items, cxx.ALL_CONFIGS, prelude=prelude, batch=40, tag="c20cx")
     nacc = 0
     for it in items:
@@ -509,7 +573,7 @@ def constexpr_parity(ctx):
     dead = [it.meta["desc"] for it in items if all(v.rejected for v in results[it.key].values())]
     ctx.require(not dead, "constexpr parity: %d expressions are rejected by every configuration, e.g. %s" % (len(dead), dead[:2]))
     ctx.require(nacc >= 60, "constexpr parity: only %d expressions accepted" % nacc)
-    return dict(expressions=len(items), accepted_everywhere=nacc, rejected_everywhere=dead, configs=len(cxx.ALL_CONFIGS))
+    return dict(expressions=len(items), api_members_covered=len(members), accepted_everywhere=nacc, rejected_everywhere=dead, configs=len(cxx.ALL_CONFIGS))
 
 
 def body(ctx):
